@@ -19,10 +19,11 @@ def sh(cmd, cwd=None, env=None, timeout=1800):
 
 
 def main():
-    pid, n = sys.argv[1], sys.argv[2]
+    tag, n = sys.argv[1], sys.argv[2]      # tag = property id, optionally followed by a round suffix (C04r2)
+    pid = tag[:3]
     extra = sys.argv[3:]
-    src = '/tmp/seed_%s_out/%s' % (pid, n)
-    wt = '/tmp/intake_%s_%s' % (pid, n)
+    src = '/tmp/seed_%s_out/%s' % (tag, n)
+    wt = '/tmp/intake_%s_%s' % (tag, n)
     meta = {'property': pid, 'source': 'independent sub-agent given only the property text and a scratch worktree',
             'base_commit': subprocess.check_output(['git', '-C', '/repo', 'rev-parse', '--short', 'HEAD']).decode().strip()}
     sh('git -C /repo worktree remove --force %s' % wt)
@@ -61,7 +62,7 @@ def main():
                     break
         meta['checks'] = results
         meta['caught'] = any(v['exit'] == 1 for v in results.values())
-        dst = '/verif/seeded/%s-%s' % (pid, n)
+        dst = '/verif/seeded/%s-%s' % (tag, n)
         os.makedirs(dst, exist_ok=True)
         for f in ('patch.diff', 'demo.py', 'notes.md'):
             if os.path.exists(os.path.join(src, f)):
@@ -75,7 +76,7 @@ def main():
                               'python -m pytest -q -p no:cacheprovider streamz in the patched worktree',
                               'STREAMZ_SRC=<patched worktree> ./check <id> quick [thorough]']
         json.dump(meta, open(os.path.join(dst, 'meta.json'), 'w'), indent=1)
-        print(pid, n, 'confirmed=%s' % meta['confirmed'], 'caught=%s' % meta['caught'], json.dumps(results)[:600])
+        print(tag, n, 'confirmed=%s' % meta['confirmed'], 'caught=%s' % meta['caught'], json.dumps(results)[:600])
     finally:
         sh('git -C /repo worktree remove --force %s' % wt)
         sh('git -C /verif checkout -- evidence')
